@@ -169,9 +169,11 @@ def init (c : Cfg) : State :=
     startSteady := nowOr c.startSteady
     procs := c.procs.map fun k => { kind := k, onStart := 1 } }
 
-/-- the span API calls of a program (ABI v1: no `AddLink`), plus `ForceFlush` on the provider -/
+/-- the span API calls of a program, plus `ForceFlush` on the provider -/
 inductive Op where
   | setAttribute (k : Bytes) (v : Value)
+  /-- `Span::AddLink(target, attrs)` — exists under ABI v2 only (`AddLinks(list)` is one `AddLink` per element under one lock) -/
+  | addLink (tid sid : Bytes) (flags : UInt8) (attrs : KVs)
   /-- the four `AddEvent` overloads: `ts = none` → no timestamp argument (clock), `attrs = none` → no attributes argument -/
   | addEvent (name : Bytes) (ts : Option Int) (attrs : Option KVs)
   | setStatus (code : Nat) (desc : Bytes)
@@ -189,6 +191,7 @@ def mutate (s : State) (op : RecOp) : State :=
 
 def step (s : State) : Op → State
   | .setAttribute k v => mutate s (.setAttribute k v)
+  | .addLink tid sid fl kvs => mutate s (.addLink tid sid fl kvs)
   | .addEvent n ts kvs => mutate s (.addEvent n ts (kvs.getD []))
   | .setStatus c d => mutate s (.setStatus c d)
   | .updateName n => mutate s (.setName n)
